@@ -2,18 +2,25 @@
 PROPERTY = "C06"
 META = {
     "category": "other",
-    "technique": "bounded stand-in (exhaustive run-time postcondition on the real order()); the heuristics of order() (500 lines of closures over mutable maps) are outside the VC generator's reach",
-    "text": "BOUNDED, not proved: the postcondition `every graph key and no other gets a priority, priorities pairwise distinct, every key after all of its in-graph dependencies; cyclic graphs rejected` is evaluated on the real order() for every graph with <= 4 (quick) / 5 (thorough) nodes whose nodes are tasks, data, aliases or multi-dependency lists, with and without a reference to an external key, in legacy and task-spec form, plus cyclic variants with a 3 s time-out.",
-    "note": "No deductive proof (level other): order() is a 500-line function of nested closures sharing mutable dicts/sets with dynamic typing; bringing it under contract was not attempted. The leaf-priority arithmetic defect found while writing its contract is fixed (known_findings.json).",
+    "technique": "bounded stand-in (exhaustive run-time postcondition on the real order()) for the property as a whole; contract-based deductive verification (z3) of one clause on a fragment: the priorities that the normalisation loop hands to stripped alias leaves; the heuristics of order() (500 lines of closures over mutable maps) are outside the VC generator's reach",
+    "text": "PROVED (fragment `all_tasks = False` .. end of the `while not all_tasks` loop, normal runs only: exception freedom of the fragment is not checked): the priorities given to stripped alias leaves are pairwise distinct, lie in [expected_len - n_removed_leaves, expected_len), and the numbered leaves have left the graph -- the clause repaired by fix bc4654f, whose pre-fix text fails `C06-leaf-priorities-are-pairwise-distinct`. BOUNDED, not proved (the property as a whole): the postcondition `every graph key and no other gets a priority, priorities pairwise distinct, every key after all of its in-graph dependencies; cyclic graphs rejected` is evaluated on the real order() for every graph with <= 4 (quick) / 5 (thorough) nodes whose nodes are tasks, data, aliases or multi-dependency lists, with and without a reference to an external key, in legacy and task-spec form, plus cyclic variants with a 3 s time-out.",
+    "note": "Level other: only the fragment above is proved; for the rest there is no deductive proof: order() is a 500-line function of nested closures sharing mutable dicts/sets with dynamic typing; bringing it under contract was not attempted. The leaf-priority arithmetic defect found while writing its contract is fixed (known_findings.json).",
     "design_ref": "DESIGN.md §5.3",
 }
-MODULES = []
+MODULES = ["contracts.orderfrag"]
 LEVEL = "other"
-EXPLANATION = "exhaustive bounded run-time postcondition check of order(); no obligations generated because order()'s closure-heavy heuristics are outside the verified subset"
-TRUSTED = ["enumeration harness /verif/vf/order_native.py"]
+EXPLANATION = "exhaustive bounded run-time postcondition check of order(); one clause (alias-leaf priorities) proved on the normalisation fragment; order()'s closure-heavy heuristics are outside the verified subset"
+TRUSTED = ["enumeration harness /verif/vf/order_native.py", "VC generator /verif/vf", "z3", "DependenciesMapping modelled as a plain map (enough for the stated clause)"]
 ASSUMPTIONS = ["bounded graph size"]
 
 
 def native(tier, seed):
     from vf import order_native
     return [order_native.sweep(tier, seed)]
+
+
+NATIVE_COVERS = {"order[alias-leaf priorities]": ["order"]}
+
+# thorough tier: deliberate edits that must turn an obligation red (applied to a scratch copy, never to /repo)
+MUTATIONS = [('contracts.orderfrag', 'order[alias-leaf priorities]', 'dask/order.py', '                prio = expected_len - 1 - n_removed_leaves', '                prio = len(dsk) - 1 - n_removed_leaves'),
+             ('contracts.orderfrag', 'order[alias-leaf priorities]', 'dask/order.py', '                del dsk[leaf]\n', '                pass\n')]
